@@ -121,6 +121,7 @@ class Driver:
         self.reacted_set = None
         self.react_once = None          # the same, armed by a replayed TLC behaviour for the step it names
         self.react_once_fw = None       # likewise for the update_fw reaction
+        self.hung = False               # a re-entrant call did not come back (see _reenter)
         self.reacting_fw = None
         self.events = []
         self.ops = []
@@ -266,6 +267,33 @@ class Driver:
         hold queues: replies are routed after the handler has returned)."""
         return json.dumps([self._tree(), [t[:3] for t in self._trans()]], sort_keys=True)
 
+    def _reenter(self, call):
+        """A controller call made from inside the event callback, on the thread that is handling the message.  A library that
+        blocks on itself there (a lock that message handling already holds) would hang the check: the call is given 5 s of wall
+        clock (it normally takes well under a millisecond), after which the step is recorded as hung - the specification rejects it -
+        and this driver makes no further re-entrant calls."""
+        import signal
+        import threading
+
+        class _Hang(BaseException):
+            pass
+        if threading.current_thread() is not threading.main_thread():
+            return call()
+
+        def on_alarm(signum, frame):
+            raise _Hang()
+        old = signal.signal(signal.SIGALRM, on_alarm)
+        signal.setitimer(signal.ITIMER_REAL, 5.0)
+        try:
+            return call()
+        except _Hang:
+            self.hung = True
+            self.react_set = self.react_fw = self.react_once = self.react_once_fw = None
+            return None
+        finally:
+            signal.setitimer(signal.ITIMER_REAL, 0)
+            signal.signal(signal.SIGALRM, old)
+
     def _callback(self, msg):
         seen = self._seen()
         entry = [self._msg_fields(msg), seen]
@@ -279,9 +307,9 @@ class Driver:
                     loop = self._loop()
                     if loop.is_running():
                         raise RuntimeError("inside the running loop (stop() in progress): the coroutine cannot be awaited here")
-                    loop.run_until_complete(self.gw.update_fw(msg.node_id, fw[0], fw[1]))
+                    self._reenter(lambda: loop.run_until_complete(self.gw.update_fw(msg.node_id, fw[0], fw[1])))
                 else:
-                    self.gw.update_fw(msg.node_id, fw[0], fw[1])
+                    self._reenter(lambda: self.gw.update_fw(msg.node_id, fw[0], fw[1]))
                 self.reacted = int(msg.node_id)
             except Exception:  # pylint: disable=broad-except
                 pass            # no reaction took place
@@ -291,9 +319,9 @@ class Driver:
             t2, v2, a2 = self.reacting = self.react_once or self.react_set
             try:
                 if a2:
-                    self.gw.set_child_value(msg.node_id, msg.child_id, t2, v2, ack=a2)
+                    self._reenter(lambda: self.gw.set_child_value(msg.node_id, msg.child_id, t2, v2, ack=a2))
                 else:
-                    self.gw.set_child_value(msg.node_id, msg.child_id, t2, v2)
+                    self._reenter(lambda: self.gw.set_child_value(msg.node_id, msg.child_id, t2, v2))
                 self.reacted_set = "none"
             except (ValueError, vol.Invalid):
                 self.reacted_set = "refused"
@@ -469,7 +497,7 @@ class Driver:
             bad = {"a": ev.get("a", "?"), "unobservable": True, "why": f"{type(exc).__name__}: {exc}"[:200], "out": [], "cb": [],
                    "exc": "none", "raised": False, "alive": self.alive, "hasdisk": False, "haswire": False, "linkup": True, "wire": [],
                    "outp": [], "rawout": [], "st": {"tree": [], "trans": [], "sess": [], "fw": [], "jobs": [], "metric": True, "dirty": True},
-                   "disk": {"file": False, "tree": []}}
+                   "disk": {"file": False, "tree": []}, "hang": self.hung}
             self.reacted = None
             self.reacted_set = None
             bad["rx"] = self._rx()
@@ -480,6 +508,8 @@ class Driver:
 
     def _emit_event_inner(self, ev, raised, with_disk=False):
         ev["unobservable"] = False
+        ev["hang"] = self.hung
+        self.hung = False
         ev["rx"] = self._rx()
         ev["out"] = [self._cmd(x) for x in self.tr.log]
         ev["rawout"] = list(self.tr.log)
